@@ -46,6 +46,18 @@
 (*                              yields Mono(g) from any initial guess      *)
 (*   InitChainTheorem           the greedy initialization order exists     *)
 (*                              exactly for acyclic systems and is valid   *)
+(*   MDAGroupsTheorem           the groups of a valid sequence that get an *)
+(*                              inner MDA (NeedsMDA) are the strong groups;*)
+(*                              the k-th user-provided sub coupling        *)
+(*                              structure belongs to the k-th such group   *)
+(*   InitDefaultsTheorem        with default values for the free names and *)
+(*                              the strong couplings only, the             *)
+(*                              initialization order exists                *)
+(*   MDAChainOptionsTheorem     MDAChain = the sequence turned into        *)
+(*                              sub-processes under its options (inner MDA *)
+(*                              class, tasks of a stage in parallel or in  *)
+(*                              sequence, initialization of the defaults); *)
+(*                              every combination yields Mono(g)           *)
 (* DepGraphReport.tla evaluates the same operators on what the real gemseo *)
 (* objects returned for each printed instance.                             *)
 (***************************************************************************)
@@ -61,7 +73,9 @@ CONSTANTS
   UK,          \* number of names           (family N: the names are the first UK of UNames)
   SampleMod, SampleKey,   \* keep the instance iff (Hash + SampleKey) % SampleMod = 0
   Pick,        \* 0: enumerate every code and filter; > 0: that many codes spread over the whole range
-  Emit         \* TRUE: print one CASE record per instance
+  Emit,        \* TRUE: print one CASE record per instance
+  NInner,      \* the inner MDA classes of the MDAChain options: the first NInner of InnerNames
+  OptMod       \* 0: no MDAChain option runs; > 0: about |MDAOptionSpace| / OptMod option records per instance
 
 ---------------------------------------------------------------------------------
 (* generic helpers *)
@@ -173,10 +187,10 @@ ParEval(g, seq, val) ==
 (* respects the dependencies: every discipline runs, and every run of a     *)
 (* producer precedes every run of a consumer that is not mutually dependent *)
 (* with it (members of a group may be run repeatedly, in any order)         *)
-RespectsDependencies(g, log) ==
-  /\ ToSet(log) = Pos(g)
-  /\ \A a, b \in 1..Len(log) :
+OrderedLog(g, log) ==
+  \A a, b \in 1..Len(log) :
         (Edge(g, log[b], log[a]) /\ ~\E C \in SCCs(g) : {log[a], log[b]} \subseteq C) => (b < a)
+RespectsDependencies(g, log) == ToSet(log) = Pos(g) /\ OrderedLog(g, log)
 (* the data a chain over the positions ps needs from outside / provides     *)
 RECURSIVE ChainInputs(_, _, _)
 ChainInputs(g, ps, made) ==
@@ -191,6 +205,11 @@ Avail(g, ord, k) == IF k = 0 THEN FreeNames(g) ELSE Avail(g, ord, k - 1) \cup g.
 ValidInitOrder(g, ord) ==
   /\ Len(ord) = g.n /\ ToSet(ord) = Pos(g)
   /\ \A k \in 1..Len(ord) : g.ins[ord[k]] \subseteq Avail(g, ord, k - 1)
+RECURSIVE AvailFrom(_, _, _, _) \* the same with default values for the names a0 only
+AvailFrom(g, ord, k, a0) == IF k = 0 THEN a0 ELSE AvailFrom(g, ord, k - 1, a0) \cup g.outs[ord[k]]
+ValidInitOrderFrom(g, ord, a0) ==
+  /\ Len(ord) = g.n /\ ToSet(ord) = Pos(g)
+  /\ \A k \in 1..Len(ord) : g.ins[ord[k]] \subseteq AvailFrom(g, ord, k - 1, a0)
 (* the greedy construction of order_disciplines_from_default_inputs        *)
 RECURSIVE GreedyRound(_, _, _, _)
 GreedyRound(g, todo, avail, taken) ==  \* one pass over the remaining disciplines, in listing order
@@ -213,6 +232,90 @@ Flatten(seq) == LET RECURSIVE F(_)
                                      G(gs) == IF gs = <<>> THEN <<>> ELSE Head(gs) \o G(Tail(gs))
                                  IN G(Head(s)) \o F(Tail(s))
                 IN F(seq)
+
+---------------------------------------------------------------------------------
+(* MDAChain: how the execution sequence becomes sub-processes, under the options *)
+(* of MDAChain_Settings.                                                         *)
+(*   a group gets an inner MDA iff it has >= 2 members or is a self-coupled      *)
+(*   singleton; every other group is the discipline itself;                      *)
+(*   a stage with several tasks is an MDOChain of them, or an MDOParallelChain   *)
+(*   (mdachain_parallelize_tasks);                                               *)
+(*   sub_coupling_structures: one structure per inner MDA, in sequence order:    *)
+(*   the k-th structure belongs to the k-th group that gets an inner MDA.        *)
+NeedsMDA(g, grp) == Len(grp) >= 2 \/ (Len(grp) = 1 /\ SelfCoupled(g, grp[1]))
+RECURSIVE GroupList(_)          \* the groups of a sequence, stage after stage
+GroupList(seq) == IF seq = <<>> THEN <<>> ELSE Head(seq) \o GroupList(Tail(seq))
+MDAGroups(g, seq) == SelectSeq(GroupList(seq), LAMBDA grp : NeedsMDA(g, grp))
+(* what the user passes as sub_coupling_structures: CouplingStructure(group) for   *)
+(* each group that needs an MDA (here: its set of positions)                     *)
+UserStructures(g, seq) == [k \in 1..Len(MDAGroups(g, seq)) |-> ToSet(MDAGroups(g, seq)[k])]
+(* the inner MDAs of the chain: members and the disciplines of the coupling       *)
+(* structure each one works with                                                 *)
+InnerMDAPlan(g, seq, sub) ==
+  [k \in 1..Len(MDAGroups(g, seq)) |->
+     [members |-> MDAGroups(g, seq)[k],
+      structure |-> IF sub = "user" THEN UserStructures(g, seq)[k] ELSE ToSet(MDAGroups(g, seq)[k])]]
+
+InnerNames == <<"MDAJacobi", "MDAGaussSeidel", "MDANewtonRaphson", "MDAQuasiNewton", "MDAGSNewton">>
+SubModes == <<"none", "user">>
+InitModes == <<"off", "full", "guess">>
+   \* initialize_defaults: off; on with default values for every name; on with default values for the
+   \* free names and the strong couplings only (the "eventually missing" ones are computed)
+MDAOptionSpaceP(ninner) ==
+  [inner : {InnerNames[k] : k \in 1..ninner}, sub : ToSet(SubModes), cs : BOOLEAN, par : BOOLEAN, lin : BOOLEAN,
+   init : ToSet(InitModes), np : {1, 2}]
+   \* cs: coupling_structure given by the user; par: mdachain_parallelize_tasks; lin: chain_linearize;
+   \* np: n_processes (threads) of the chain and of its inner MDAs
+MDAOptionSpace == MDAOptionSpaceP(NInner)
+SemanticOptions == [inner : {"MDAJacobi", "MDAGaussSeidel"}, par : BOOLEAN, init : ToSet(InitModes)]
+   \* (the Newton-type classes return the fixed point of the group, like MDAGaussSeidel here)
+
+GuessNames(g) == FreeNames(g) \cup StrongC(g)
+Undefined == -99                \* a name without default value: whatever is read there must not matter
+RECURSIVE JacobiRepeat(_, _, _, _)
+JacobiRepeat(g, grp, val, k) ==  \* k Jacobi sweeps: every member on the same data, results merged
+  IF k = 0 THEN val
+  ELSE LET outs == [m \in 1..Len(grp) |-> RunDisc(g, grp[m], val)]
+           nv == TLCEval([v \in DOMAIN val |->
+                     IF \E m \in 1..Len(grp) : v \in g.outs[grp[m]]
+                     THEN outs[CHOOSE m \in 1..Len(grp) : v \in g.outs[grp[m]]][v] ELSE val[v]])
+       IN JacobiRepeat(g, grp, nv, k - 1)
+TaskEval(g, grp, val, inner) ==  \* one task of a stage: the discipline, or the inner MDA of the group
+  IF ~NeedsMDA(g, grp) THEN ChainEval(g, grp, val)
+  ELSE IF inner = "MDAJacobi" THEN JacobiRepeat(g, grp, val, Len(grp) + 1)
+  ELSE Repeat(g, grp, val, Len(grp) + 1)
+RECURSIVE TasksSeq(_, _, _, _)
+TasksSeq(g, grps, val, inner) ==
+  IF grps = <<>> THEN val ELSE TasksSeq(g, Tail(grps), TaskEval(g, Head(grps), val, inner), inner)
+RECURSIVE TasksPar(_, _, _, _, _)
+TasksPar(g, grps, val0, acc, inner) ==
+  IF grps = <<>> THEN acc
+  ELSE LET r == TaskEval(g, Head(grps), val0, inner)
+           outs == GOut(g, ToSet(Head(grps)))
+       IN TasksPar(g, Tail(grps), val0, TLCEval([v \in DOMAIN acc |-> IF v \in outs THEN r[v] ELSE acc[v]]), inner)
+RECURSIVE StagesEval(_, _, _, _)
+StagesEval(g, seq, val, o) ==
+  IF seq = <<>> THEN val
+  ELSE StagesEval(g, Tail(seq),
+                  (IF o.par /\ Len(Head(seq)) > 1 THEN TasksPar(g, Head(seq), val, val, o.inner)
+                   ELSE TasksSeq(g, Head(seq), val, o.inner)), o)
+DefaultsOf(g, avail) == [v \in DOMAIN g.x0 |-> IF v \in avail THEN g.x0[v] ELSE Undefined]
+InitRuns(g) == g.n > 1 /\ StrongC(g) # {}       \* MDAChain.execute: when the initialization chain is used
+StartData(g, o) ==
+  LET avail == IF o.init = "guess" THEN GuessNames(g) ELSE Names(g)
+  IN IF o.init = "off" \/ ~InitRuns(g) THEN DefaultsOf(g, avail)
+     ELSE ChainEval(g, Greedy(g, Pos(g), avail, <<>>).ord, DefaultsOf(g, avail))
+MDAChainEval(g, seq, o) == StagesEval(g, seq, StartData(g, o), o)
+(* the log of an MDAChain run: when the initialization chain is used, one pass over the disciplines *)
+(* in an order in which each one finds its inputs (the couplings are ignored there, as documented), *)
+(* then - and otherwise from the start - an order that respects the dependencies (after the         *)
+(* initialization pass a discipline whose inputs did not change is served by its cache: every       *)
+(* discipline has run, the later runs are ordered)                                                  *)
+ChainLogOK(g, log, init) ==
+  IF init = "off" \/ ~InitRuns(g) THEN RespectsDependencies(g, log)
+  ELSE /\ Len(log) >= g.n
+       /\ ValidInitOrderFrom(g, SubSeq(log, 1, g.n), IF init = "guess" THEN GuessNames(g) ELSE Names(g))
+       /\ OrderedLog(g, SubSeq(log, g.n + 1, Len(log)))
 
 ---------------------------------------------------------------------------------
 (* instance constructors *)
@@ -282,6 +385,27 @@ U == ToSet(Universe)
 InsOf(n, k) == [p \in 1..n |-> {Universe[i] : i \in {i \in 1..UK : Bit(k, (p - 1) * 2 * UK + (i - 1))}}]
 OutsOf(n, k) == [p \in 1..n |-> {Universe[i] : i \in {i \in 1..UK : Bit(k, (p - 1) * 2 * UK + UK + (i - 1))}}]
 
+(* the MDAChain options run on an instance: a pseudo-random part of the option space, different from *)
+(* one instance to the next (the instance hash scrambles the option index modulo a prime)           *)
+Idx(s, x) == CHOOSE k \in 1..Len(s) : s[k] = x
+B2I(b) == IF b THEN 1 ELSE 0
+OptIndex(o) ==
+  (Idx(InnerNames, o.inner) - 1) + 5 * ((Idx(SubModes, o.sub) - 1) + 2 * (B2I(o.cs) + 2 * (B2I(o.par) + 2 * (B2I(o.lin)
+     + 2 * ((Idx(InitModes, o.init) - 1) + 3 * (o.np - 1))))))
+SetCode(S) == Sum(S, [v \in S |-> 2 ^ (UTab[v] - 1)])
+CodeHash(cd) ==
+  IF cd.fam = "E"
+  THEN 31 * Sum(cd.adj, [e \in cd.adj |-> 2 ^ ((e[1] - 1) * cd.n + (e[2] - 1))]) + 7 * OrdCode(cd.n, cd.order)
+       + (IF cd.priv THEN 3 ELSE 0) + (IF cd.dup THEN 5 ELSE 0)
+  ELSE Sum(1..cd.n, [p \in 1..cd.n |-> (SetCode(cd.ins[p]) + 16 * SetCode(cd.outs[p])) * (256 ^ (p - 1))])
+(* on a system without inner MDA the options inner, sub, np have no object *)
+Canon(gg, o) == IF StrongGroups(gg) = {} THEN [o EXCEPT !.inner = InnerNames[1], !.sub = "none", !.np = 1] ELSE o
+SelectedOptionsP(gg, cd, optmod, ninner, key) ==
+  IF optmod = 0 \/ ~Consistent(gg) THEN {}
+  ELSE LET h == (CodeHash(cd) + 17 * key) % 1009
+       IN {Canon(gg, o) : o \in {oo \in MDAOptionSpaceP(ninner) : (((OptIndex(oo) + 1) * 389 + h) % 1009) % optmod = 0}}
+SelectedOptions(gg, cd) == SelectedOptionsP(gg, cd, OptMod, NInner, SampleKey)
+
 ---------------------------------------------------------------------------------
 (* The construction of DependencyGraph.get_execution_sequence, step by step *)
 VARIABLES code,    \* the instance as enumerated (constant along a behaviour)
@@ -347,6 +471,9 @@ Expected ==                     \* what the specification says about this instan
    singletons |-> AllSingletons(g),
    acyclic |-> Acyclic(g),
    free |-> FreeNames(g),
+   guess |-> GuessNames(g),
+   sgroups |-> StrongGroups(g),
+   opts |-> SelectedOptions(g, code),
    mono |-> IF Consistent(g) THEN Mono(g) ELSE <<>>]
 System == [n |-> g.n, name |-> g.name, ins |-> g.ins, outs |-> g.outs, w |-> g.w, c |-> g.c, x0 |-> g.x0]
 
@@ -418,6 +545,22 @@ InitChainTheorem ==             \* the greedy initialization succeeds exactly on
   /\ r.ok => ValidInitOrder(g, r.ord)
   /\ (r.ok /\ Consistent(g)) => (ChainEval(g, r.ord, g.x0) = Mono(g))
   /\ (~r.ok) => ~\E ord \in Perms(g.n) : ValidInitOrder(g, ord)
+
+MDAGroupsTheorem ==             \* which groups get an inner MDA; whose structure the k-th user structure is
+  (pc = "done") =>
+  LET M == MDAGroups(g, stages) IN
+  /\ {ToSet(M[k]) : k \in 1..Len(M)} = StrongGroups(g)
+  /\ Len(M) = Cardinality(StrongGroups(g))
+  /\ \A sub \in ToSet(SubModes) : \A k \in 1..Len(M) :
+        InnerMDAPlan(g, stages, sub)[k].structure = ToSet(InnerMDAPlan(g, stages, sub)[k].members)
+
+InitDefaultsTheorem ==          \* guesses for the strong couplings are enough for the initialization chain
+  (pc = "done" /\ Consistent(g)) =>
+  LET r == Greedy(g, Pos(g), GuessNames(g), <<>>) IN r.ok /\ ValidInitOrderFrom(g, r.ord, GuessNames(g))
+
+MDAChainOptionsTheorem ==       \* every option combination returns the simultaneous solution
+  (pc = "done" /\ Consistent(g)) =>
+  LET m == Mono(g) IN \A o \in SemanticOptions : MDAChainEval(g, stages, o) = m
 
 Depth == TLCGet("level") <= 12     \* a behaviour has at most MaxD + 5 states
 ================================================================================
